@@ -154,6 +154,20 @@ theorem slice_indices_eq (A : Csr) (hA : A.WF) (ind : List Nat) (hi : ∀ i ∈ 
   rw [sliceIndices_ofRows nc R ind hi, rows_ofRows, List.map_flatten, List.map_map]
   rfl
 
+/-- … and `array_ind` (second output of `slice_indices`) lists the storage positions
+    `indptr[i] … indptr[i+1]-1` of the lines, line after line (any matrix, any lines). -/
+theorem slice_indices_array_ind (A : Csr) (ind : List Nat) :
+    (sliceIndices A ind).2 = ind.flatMap (fun i =>
+      List.range' (A.indptr.getD i 0) (A.indptr.getD (i + 1) 0 - A.indptr.getD i 0)) :=
+  lineIdx_eq A ind
+
+/-- scalar `slice_ind`: the column indices stored in line `i` and the slice `indptr[i]:indptr[i+1]`. -/
+theorem slice_indices_int_eq (A : Csr) (hA : A.WF) (i : Nat) :
+    sliceIndicesInt A i = ((A.rowEntries i).map (·.1), (A.indptr.getD i 0, A.indptr.getD (i + 1) 0)) := by
+  obtain ⟨-, -, -, -, h5, -⟩ := WF_unpack A hA
+  simp only [sliceIndicesInt, Csr.rowEntries, Prod.mk.injEq, and_true]
+  rw [List.map_take, List.map_drop, List.map_fst_zip (by omega)]
+
 example : (sliceLines ⟨3, 3, [0, 2, 2, 4], [0, 2, 0, 1], [1, 2, 3, 4]⟩ [2, 2, 0]).toDense
     = [[3, 4, 0], [3, 4, 0], [1, 0, 2]] := by decide +kernel
 
@@ -270,12 +284,58 @@ theorem from_sparse_blocks_eq_block_diag (bs : List Csr) (hbs : ∀ b ∈ bs, b.
 
 theorem from_sparse_blocks_empty : fromSparseBlocks [] = .error "ValueError" := rfl
 
+/-! ## block-diagonal construction from dense data -/
+
+/-- `csr_matrix_from_dense_blocks(data, block_size, num_blocks)` (csc: transposed reading, i.e. the
+    data are read column-wise): densely the block diagonal of the `num_blocks` square blocks obtained
+    by cutting `data` into chunks of `block_size²` values, each chunk row-major; well formed.
+    `num_blocks = 0` (empty matrix) and `block_size = 1` (the code's special branch) included. -/
+theorem from_dense_blocks_eq_block_diag (data : List Rat) (bs nb : Nat) (hbs : 1 ≤ bs)
+    (hd : data.length = bs * bs * nb) :
+    ∃ C, fromDenseBlocks data bs nb = .ok C ∧
+      C.toDense = (blockDiagDense ((chunks (bs * bs) nb data).map (fun d => (chunks bs bs d, bs)))).1 ∧
+      C.nrows = nb * bs ∧ C.ncols = nb * bs ∧ C.WF := by
+  obtain ⟨h1, h2⟩ := fromDenseBlocks_dense data bs nb hd
+  refine ⟨_, fromDenseBlocks_eq_ofRows data bs nb hbs hd, h1, ?_, rfl, WF_ofRows _ _ h2⟩
+  show (dbRows bs 0 nb data).length = nb * bs
+  exact (dbRows_spec bs nb 0 data hd).2.2.2
+
+/-- a data array of the wrong size is the documented `ValueError` -/
+theorem from_dense_blocks_size_error (data : List Rat) (bs nb : Nat) (hd : data.length ≠ bs * bs * nb) :
+    fromDenseBlocks data bs nb = .error "ValueError" := by
+  simp [fromDenseBlocks, hd]
+
+example : (fromDenseBlocks [1, 2, 3, 4, 5, 6, 7, 8] 2 2).map Csr.toDense
+    = .ok [[1, 2, 0, 0], [3, 4, 0, 0], [0, 0, 5, 6], [0, 0, 7, 8]] := by decide +kernel
+
+/-- `block_diag_matrix(vals, sz)` (blocks of different sizes `sz_k`, zero sizes allowed): densely the
+    block diagonal of the blocks cut from `vals` (`sz_k²` values each, row-major); built by the code
+    from `block_diag_index(sz)` and `rldecode(sz, sz)`. -/
+theorem block_diag_matrix_eq_block_diag (vals : List Rat) (sz : List Nat) (hv : vals.length = sumSq sz) :
+    ∃ C, blockDiagMatrix vals sz = .ok C ∧
+      C.toDense = (blockDiagDense ((varBlocks sz vals).map (fun p => (chunks p.2 p.2 p.1, p.2)))).1 ∧ C.WF := by
+  obtain ⟨h1, h2, h3⟩ := blockDiagMatrix_eq vals sz hv
+  exact ⟨_, h1, h2, WF_ofRows _ _ h3⟩
+
+example : (blockDiagMatrix [0, 1, 2, 3, 4] [1, 0, 2]).map Csr.toDense = .ok [[0, 0, 0], [0, 1, 2], [0, 3, 4]] := by
+  decide +kernel
+
 /-! ## Kronecker expansion, index expansion -/
 
 /-- `sps.kron(A, eye(nd))` in compressed form has the dense Kronecker product with the identity as
     its dense matrix (every `A`, well formed or not; `nd = 0` gives the empty matrix). -/
 theorem kron_identity_dense (A : Csr) (nd : Nat) : (kronI A nd).toDense = kronDense A.toDense nd :=
   kronI_dense A nd
+
+/-- `nd = 1` (the code returns the matrix unchanged): the Kronecker product with the 1×1 identity
+    is the matrix itself. -/
+theorem kron_one_dense (M : List (List Rat)) : kronDense M 1 = M := by
+  induction M with
+  | nil => rfl
+  | cons row M ih =>
+    simp only [kronDense, List.flatMap_cons] at ih ⊢
+    rw [ih]
+    simp [List.range_succ]
 
 /-- `expand_indices_nd(ind, nd, "F")` lists `nd*i + d` for every index `i` and `d < nd`, index by
     index (the rows of `kron(·, I_nd)` that belong to the rows `ind`); `"C"` lists them `d` by `d`. -/
